@@ -108,7 +108,10 @@ _HISTORY_UNITS = (
 def _summary(v):
     """what a caller can see of a result, as text"""
     if isinstance(v, SVar):
-        return ('var', T.show(v.term) if v.term is not None else f'⊤ {v.why}', repr(v.unit), v.dtype)
+        # (the precisions of the floating-point operations the value went through: a constant kept in single precision by an
+        # earlier call shows here, not in the term)
+        return ('var', T.show(v.term) if v.term is not None else f'⊤ {v.why}', repr(v.unit), v.dtype,
+                tuple(sorted({str(dt) for _, _, dt in v.hist})))
     if isinstance(v, dict):
         return ('dict', tuple((k, _summary(x)) for k, x in v.items()))
     if isinstance(v, list | tuple):
